@@ -39,9 +39,25 @@ def derives_from_source(expr):
     return False
 
 
-def is_copy(prog, module, expr):
-    return isinstance(expr, ast.Call) and prog.resolve(
-        module, expr.func) in ('ext:copy.deepcopy',)
+def is_copy(prog, module, expr, depth=2):
+    """copy.deepcopy(x), or a one-argument helper of the package that only
+    hands back the deep copy of its argument."""
+    if not isinstance(expr, ast.Call):
+        return False
+    r = prog.resolve(module, expr.func)
+    if r in ('ext:copy.deepcopy',):
+        return True
+    g = prog.functions.get(r) if isinstance(r, str) else None
+    if g is None or depth <= 0 or g.cls is not None or len(
+            expr.args) != 1 or expr.keywords:
+        return False
+    body = [b for b in g.node.body if not (isinstance(b, ast.Expr) and
+                                           isinstance(b.value, ast.Constant))]
+    return len(body) == 1 and isinstance(body[0], ast.Return) and is_copy(
+        prog, g.module, body[0].value, depth - 1) and len(
+            body[0].value.args) == 1 and isinstance(
+                body[0].value.args[0], ast.Name) and len(
+                    g.params) == 1 and body[0].value.args[0].id == g.params[0]
 
 
 class Taint:
@@ -180,7 +196,8 @@ def check_copy_in(ctx):
                        'storing a deep copy under a name')
         if not any(e.kind == 'substore' and e.path == SOURCE for e in effs):
             continue
-        t = Table(prog, m, handler_paths=False)
+        t = Table(prog, m, handler_paths=False, inline=inline_helpers(
+            prog, modules={POLICY}, classes=False))
         seen = set()
         for p in t.paths:
             for ev in p.events:
@@ -208,7 +225,8 @@ def check_copy_in(ctx):
                     'them influence one another')
     ctx.floor('C12.COPY-IN', n, 1, 'registry stores')
     rd = prog.func(POLICY + '.RuleDefault.__init__')
-    t = Table(prog, rd, handler_paths=False)
+    t = Table(prog, rd, handler_paths=False, inline=inline_helpers(
+        prog, modules={POLICY}, classes=False))
     bad = None
     nst = 0
     for p in t.paths:
@@ -356,22 +374,33 @@ def check_fresh_or(ctx):
     f = r.deprecated
     classes = G.check_classes(prog)
     n = 0
-    for ret in walk_no_nested(f.node):
-        if not isinstance(ret, ast.Return) or ret.value is None:
+    from ..dte import Table, inline_helpers
+    t = Table(prog, f, inline=inline_helpers(
+        prog, modules={POLICY}, exclude={r.load_rules.qual, r.loader.qual,
+                                         POLICY + '.Enforcer.check_rules'}),
+        max_depth=4)
+    F = ctx.where(f.module, f.node).split(':')[0]
+    seen = set()
+    for p in t.paths:
+        if p.outcome.kind != 'return' or p.outcome.expr is None:
             continue
-        v = ret.value
-        if isinstance(v, ast.Call):
-            cc = classes.get(prog.resolve(f.module, v.func))
-            n += 1
-            ok = cc is not None and cc.sem in ('or', 'and') and len(
-                v.args) == 1 and isinstance(v.args[0], (ast.List,
-                                                        ast.Tuple))
-            ctx.ob('C12.FRESH-OR', ok, ctx.where(f.module, ret), f.qual,
-                   U(ret)[:100],
-                   'the merged check is a new object over the two existing '
-                   'checks (a new list, nothing is extended)' if ok else
-                   'the merged deprecated check is not a freshly '
-                   'constructed combinator over a new list')
+        v = t.expand(p.outcome.expr)
+        if not isinstance(v, ast.Call):
+            continue
+        key = (p.outcome.line, U(v))
+        if key in seen:
+            continue
+        seen.add(key)
+        cc = classes.get(prog.resolve(t.module_of(p.outcome.frame), v.func))
+        n += 1
+        ok = cc is not None and cc.sem in ('or', 'and') and len(
+            v.args) == 1 and isinstance(v.args[0], (ast.List, ast.Tuple))
+        ctx.ob('C12.FRESH-OR', ok, '%s:%d' % (F, p.outcome.line),
+               p.outcome.frame or f.qual, 'return ' + U(v)[:100],
+               'the merged check is a new object over the two existing '
+               'checks (a new list, nothing is extended)' if ok else
+               'the merged deprecated check is not a freshly '
+               'constructed combinator over a new list')
     ctx.floor('C12.FRESH-OR', n, 1, 'merged-check constructions')
 
 
@@ -467,6 +496,8 @@ def check(ctx):
     _c10.check_dir_mtime(ctx)
     _c10.check_stale(ctx)
     _c10.check_reapply_and_reset(ctx)
+    _c10.check_dir_forced(ctx)
+    _c10.check_pair(ctx)
     for fd in ctx.findings[nf:]:
         fd.rule = 'C12.RELOAD(' + fd.rule + ')'
     for o in ctx.obligations[no:]:
@@ -478,6 +509,8 @@ def check(ctx):
     nf, no = len(ctx.findings), len(ctx.obligations)
     c11.check_gate(ctx)
     c09.check_order(ctx)
+    from ..load_model import check_merge_memo
+    check_merge_memo(ctx, 'MEMO')
     for fd in ctx.findings[nf:]:
         fd.rule = 'C12.ONCE(' + fd.rule + ')'
     for o in ctx.obligations[no:]:
